@@ -16,8 +16,10 @@ pub enum Mode {
 
 pub struct KillRing {
     slots: Vec<String>,
-    // where we are in the kill ring
+    // where we are in the kill ring (slot of the most recent kill)
     index: usize,
+    // slot that yank returns: `index`, moved back by each yank-pop until the next kill
+    yank_index: usize,
     // whether or not the last command was a kill or a yank
     last_action: Action,
     killing: bool,
@@ -29,6 +31,7 @@ impl KillRing {
         Self {
             slots: Vec::with_capacity(size),
             index: 0,
+            yank_index: 0,
             last_action: Action::Other,
             killing: false,
         }
@@ -67,6 +70,8 @@ impl KillRing {
             } else {
                 self.slots[self.index] = String::from(text);
             }
+            // a new kill is the most recent one: it ends the rotation of yank-pop
+            self.yank_index = self.index;
         }
     }
 
@@ -84,8 +89,8 @@ impl KillRing {
         if self.slots.is_empty() {
             None
         } else {
-            self.last_action = Action::Yank(self.slots[self.index].len().saturating_mul(n));
-            Some(&self.slots[self.index])
+            self.last_action = Action::Yank(self.slots[self.yank_index].len().saturating_mul(n));
+            Some(&self.slots[self.yank_index])
         }
     }
 
@@ -97,13 +102,13 @@ impl KillRing {
                 if self.slots.is_empty() {
                     return None;
                 }
-                if self.index == 0 {
-                    self.index = self.slots.len() - 1;
+                if self.yank_index == 0 {
+                    self.yank_index = self.slots.len() - 1;
                 } else {
-                    self.index -= 1;
+                    self.yank_index -= 1;
                 }
-                self.last_action = Action::Yank(self.slots[self.index].len());
-                Some((yank_size, &self.slots[self.index]))
+                self.last_action = Action::Yank(self.slots[self.yank_index].len());
+                Some((yank_size, &self.slots[self.yank_index]))
             }
             _ => None,
         }
